@@ -54,7 +54,13 @@ def main():
     for p in profiles:
         for f in flavours:
             for i in range(n):
-                traces.append(gen.trace(p, f, seed0 + i, length))
+                cfg = None
+                if os.environ.get('TVSWEEP_CFG'):
+                    # a configuration per trace: validation / normalisation switches and header_encoding, in rotation
+                    k = (seed0 + i) % 8
+                    one = {'vi': k not in (1, 5), 'ni': k not in (2, 5), 'vo': k not in (3, 6), 'no': k not in (4, 6), 'enc': k == 7}
+                    cfg = {'c': one, 's': one}
+                traces.append(gen.trace(p, f, seed0 + i, length, cfg=cfg))
     nsteps = sum(len(t['steps']) for t in traces)
     print('recorded %d traces, %d steps in %.1fs' % (len(traces), nsteps, time.time() - t0))
     res, stats = tv.validate(traces, os.path.join(ROOT, '.work', 'tvsweep_%d' % os.getpid()))
